@@ -122,7 +122,18 @@ def rule_exit_machine(ctx):
                 if render(s['inner'][1]).replace(' ', '') != '(tmax-r.t)':
                     ctx.report('R08.2', 'check_exit:dt:value', where, 'the shortened step is %s, not tmax - t' % render(s['inner'][1]))
                 samples.append('%s: r->dt = %s under %s' % (where, render(s['inner'][1]), cs[-2:]))
-    anchor(n >= 2, 'reb_check_exit assigns r->dt on the last-step paths')
+    anchor(n >= 1, 'reb_check_exit assigns r->dt on the last-step paths')
+    # the user's step size is remembered once, when the last step is entered - not again on the retry path (status already
+    # LAST_STEP), where dt_last_done is the shortened step: integrate() would then restore the shortened step as the user's dt
+    for e in walk(cfront.body(fn)):
+        if is_assign(e) and 'last_full_dt' in render(e['inner'][0]):
+            n += 1
+            cs = [c.replace(' ', '') for c in conds.get(id(e), [])]
+            first_time = any((c.startswith('!(') and 'r.status==REB_STATUS_LAST_STEP' in c and '&&' not in c and '||' not in c)
+                             or ('r.status!=REB_STATUS_LAST_STEP' in c and not c.startswith('!') and '||' not in c) for c in cs)
+            if not first_time:
+                ctx.report('R08.2', 'check_exit:last_full_dt:retry', 'src/rebound.c:%s reb_check_exit' % line_of(e),
+                           'the step size to restore after the integration is stored on a path that is also taken when the status already is REB_STATUS_LAST_STEP (conditions: %s): on the retry path dt_last_done is the shortened last step, which then replaces the user\'s dt' % cs[-3:])
     # the first shrink stores the previous full step
     stores = [e for e in walk(cfront.body(fn)) if is_assign(e) and render(e['inner'][0]).replace(' ', '') in ('(*last_full_dt)', '*last_full_dt')]
     n += 1
